@@ -409,7 +409,9 @@ func newGSIBlock(s Subtitles) (g *gsiBlock) {
 		}
 		g.revisionNumber = s.Metadata.STLRevisionNumber
 		g.subtitleListReferenceCode = s.Metadata.STLSubtitleListReferenceCode
-		g.timecodeStartOfProgramme = s.Metadata.STLTimecodeStartOfProgramme
+		// The timecode start of programme is written in whole frames: that value is what the timecodes of the
+		// subtitles count from, a fraction of a frame would otherwise carry over into some of them
+		g.timecodeStartOfProgramme = stlFramesToDuration(int(s.Metadata.STLTimecodeStartOfProgramme.Nanoseconds())*g.framerate/1e9, g.framerate)
 		g.translatedEpisodeTitle = s.Metadata.STLTranslatedEpisodeTitle
 		g.translatedProgramTitle = s.Metadata.STLTranslatedProgramTitle
 		g.translatorContactDetails = s.Metadata.STLTranslatorContactDetails
